@@ -424,3 +424,249 @@ Proof.
   intros. eexists. split. eapply return_in_range_l; eassumption.
   apply upd_only_cell_changed. eapply nth_error_lt; eassumption.
 Qed.
+
+(* ------------------------------------------------------------ unpacking (induction) *)
+
+Lemma run_app : forall p q fr, run (p ++ q) fr = obind (run p fr) (run q).
+Proof.
+  induction p as [|i p IH]; intros q fr; simpl; [reflexivity|].
+  destruct (exec_instr i fr); simpl; auto.
+Qed.
+
+Lemma exec_op : forall op ins fr args outs,
+  lookups fr ins = Ok args -> op_sem op args = Ok outs -> exec_instr (IOp op ins) fr = Ok (fr ++ outs).
+Proof. intros op ins fr args outs H1 H2. cbn [exec_instr]. rewrite H1. cbn [obind]. rewrite H2. reflexivity. Qed.
+
+Lemma exec_unwrap2 : forall fr s msg a b,
+  nth_error fr s = Some (VSum 1 [a; b]) -> exec_instr (unwrap s msg 0 2) fr = Ok (fr ++ [a; b]).
+Proof. intros fr s msg a b H. unfold unwrap. cbn [exec_instr]. rewrite H. reflexivity. Qed.
+
+Lemma nth_error_snoc : forall A (l : list A) x, nth_error (l ++ [x]) (length l) = Some x.
+Proof. intros. rewrite nth_error_app2 by lia. rewrite Nat.sub_diag. reflexivity. Qed.
+
+Definition triple (s : val * val) : list val := [vsome [fst s; snd s]; fst s; snd s].
+
+(** [chain d len A steps]: popping from direction [d] starting with array [A] of static length
+    [len] yields the elements / remaining arrays listed in [steps] *)
+Fixpoint chain (d : bool) (len : nat) (A : val) (steps : list (val * val)) : Prop :=
+  match steps with
+  | [] => True
+  | s :: rest =>
+      op_sem (if d then OPopLeft len else OPopRight len) [A] = Ok [vsome [fst s; snd s]]
+      /\ chain d (Nat.pred len) (snd s) rest
+  end.
+
+Lemma pops_run : forall steps d len base fr A,
+  length fr = base -> chain d len A steps ->
+  run (seq_pops d len (length steps) base) (fr ++ [A]) = Ok ((fr ++ [A]) ++ flat_map triple steps).
+Proof.
+  induction steps as [|[e A'] steps IH]; intros d len base fr A Hlen Hch.
+  - simpl. rewrite app_nil_r. reflexivity.
+  - destruct Hch as [Hop Hch]. simpl in Hop, Hch.
+    cbn [length seq_pops run].
+    rewrite (exec_op _ _ _ [A] [vsome [e; A']]).
+    + cbn [obind].
+      rewrite (exec_unwrap2 _ _ _ e A').
+      * cbn [obind].
+        replace (((fr ++ [A]) ++ [vsome [e; A']]) ++ [e; A']) with ((fr ++ [A; vsome [e; A']; e]) ++ [A'])
+          by (rewrite <- !app_assoc; reflexivity).
+        rewrite (IH d (Nat.pred len) (3 + base)%nat).
+        -- f_equal. cbn [flat_map triple fst snd]. rewrite <- !app_assoc. reflexivity.
+        -- rewrite app_length. simpl. lia.
+        -- assumption.
+      * replace (S base) with (length (fr ++ [A])) by (rewrite app_length; simpl; lia).
+        apply nth_error_snoc.
+    + cbn [lookups]. subst base. rewrite nth_error_snoc. reflexivity.
+    + destruct d; assumption.
+Qed.
+
+Fixpoint last_arr (A : val) (steps : list (val * val)) : val :=
+  match steps with [] => A | s :: rest => last_arr (snd s) rest end.
+
+Lemma frame_split : forall steps A, exists fr,
+  [A] ++ flat_map triple steps = fr ++ [last_arr A steps] /\ length fr = (3 * length steps)%nat.
+Proof.
+  induction steps as [|[e A'] steps IH]; intros A.
+  - exists []. split; reflexivity.
+  - destruct (IH A') as [fr [E L]]. exists ([A; vsome [e; A']; e] ++ fr). split.
+    + cbn [flat_map triple fst snd last_arr]. simpl in E. simpl. rewrite E. reflexivity.
+    + rewrite app_length, L. simpl. lia.
+Qed.
+
+Lemma nth_triples : forall steps j A,
+  nth_error (A :: flat_map triple steps) (3 * j + 2) = option_map fst (nth_error steps j).
+Proof.
+  induction steps as [|[e A'] steps IH]; intros j A.
+  - destruct j; simpl; [reflexivity|]. replace (j + S (j + S (j + 0)) + 2)%nat with (S (S (S (3 * j + 1)))) by lia.
+    simpl. destruct (3 * j + 1)%nat; reflexivity.
+  - destruct j as [|j].
+    + reflexivity.
+    + replace (3 * S j + 2)%nat with (S (S (S (3 * j + 2)))) by lia.
+      cbn [flat_map triple fst snd app nth_error]. apply IH.
+Qed.
+
+Lemma nth_last_arr : forall steps A,
+  nth_error (A :: flat_map triple steps) (3 * length steps) = Some (last_arr A steps).
+Proof.
+  induction steps as [|[e A'] steps IH]; intros A.
+  - reflexivity.
+  - replace (3 * length ((e, A') :: steps))%nat with (S (S (S (3 * length steps)))) by (simpl; lia).
+    cbn [flat_map triple fst snd app nth_error last_arr]. apply IH.
+Qed.
+
+Lemma lookups_map : forall (fr : list val) (f : nat -> nat) (js : list nat) (vs : list val),
+  Forall2 (fun j v => nth_error fr (f j) = Some v) js vs -> lookups fr (map f js) = Ok vs.
+Proof.
+  intros fr f js vs H. induction H; simpl; [reflexivity|]. rewrite H, IHForall2. reflexivity.
+Qed.
+
+Lemma lookups_app : forall fr a b va vb, lookups fr a = Ok va -> lookups fr b = Ok vb -> lookups fr (a ++ b) = Ok (va ++ vb).
+Proof.
+  intros fr a. induction a as [|x a IH]; intros b va vb Ha Hb; simpl in *.
+  - inversion Ha. assumption.
+  - destruct (nth_error fr x); [|discriminate]. destruct (lookups fr a) eqn:E; simpl in Ha; try discriminate.
+    inversion Ha. rewrite (IH b a0 vb eq_refl Hb). reflexivity.
+Qed.
+
+(** concrete chains *)
+Fixpoint steps_left (pop rest : list val) : list (val * val) :=
+  match pop with [] => [] | e :: p => (e, VArr (map Some (p ++ rest))) :: steps_left p rest end.
+(** [pop] lists the popped elements in the order they are popped (rightmost first) *)
+Fixpoint steps_right (keep pop : list val) : list (val * val) :=
+  match pop with [] => [] | e :: p => (e, VArr (map Some (keep ++ rev p))) :: steps_right keep p end.
+
+Lemma chain_left : forall pop rest,
+  chain true (length (pop ++ rest)) (VArr (map Some (pop ++ rest))) (steps_left pop rest).
+Proof.
+  induction pop as [|e p IH]; intros rest; simpl; [exact I|]. split.
+  - unfold op_sem, sem_pop, len_ok. cbn [length map]. rewrite map_length. rewrite Nat.eqb_refl. reflexivity.
+  - apply IH.
+Qed.
+
+Lemma chain_right : forall pop keep,
+  chain false (length (keep ++ rev pop)) (VArr (map Some (keep ++ rev pop))) (steps_right keep pop).
+Proof.
+  induction pop as [|e p IH]; intros keep; simpl; [exact I|]. split.
+  - unfold op_sem, sem_pop, len_ok. rewrite map_length, Nat.eqb_refl.
+    rewrite app_assoc, map_app, rev_app_distr. simpl. rewrite rev_involutive. reflexivity.
+  - replace (Nat.pred (length (keep ++ rev p ++ [e]))) with (length (keep ++ rev p))
+      by (rewrite !app_length; simpl; lia).
+    apply IH.
+Qed.
+
+Lemma steps_left_length : forall pop rest, length (steps_left pop rest) = length pop.
+Proof. induction pop; simpl; auto. Qed.
+Lemma steps_right_length : forall pop keep, length (steps_right keep pop) = length pop.
+Proof. induction pop; simpl; auto. Qed.
+Lemma steps_left_fst : forall pop rest, map fst (steps_left pop rest) = pop.
+Proof. induction pop; simpl; intros; f_equal; auto. Qed.
+Lemma steps_right_fst : forall pop keep, map fst (steps_right keep pop) = pop.
+Proof. induction pop; simpl; intros; f_equal; auto. Qed.
+Lemma last_arr_left : forall pop rest A, pop <> [] \/ A = VArr (map Some rest) ->
+  last_arr A (steps_left pop rest) = VArr (map Some rest).
+Proof.
+  induction pop as [|e p IH]; intros rest A H; simpl.
+  - destruct H; congruence.
+  - apply IH. destruct p; [right; reflexivity | left; discriminate].
+Qed.
+Lemma last_arr_right : forall pop keep A, pop <> [] \/ A = VArr (map Some keep) ->
+  last_arr A (steps_right keep pop) = VArr (map Some keep).
+Proof.
+  induction pop as [|e p IH]; intros keep A H; simpl.
+  - destruct H; congruence.
+  - apply IH. destruct p; [right; simpl; rewrite app_nil_r; reflexivity | left; discriminate].
+Qed.
+
+Lemma last_arr_app : forall s1 s2 A, last_arr A (s1 ++ s2) = last_arr (last_arr A s1) s2.
+Proof. induction s1 as [|s s1 IH]; intros; simpl; auto. Qed.
+
+Lemma Forall2_seq_nth : forall (P : nat -> val -> Prop) vs s,
+  (forall j v, nth_error vs j = Some v -> P (s + j)%nat v) -> Forall2 P (seq s (length vs)) vs.
+Proof.
+  intros P vs. induction vs as [|x vs IH]; intros s H; simpl; constructor.
+  - specialize (H O x eq_refl). rewrite Nat.add_0_r in H. exact H.
+  - apply IH. intros j v Hj. replace (S s + j)%nat with (s + S j)%nat by lia. apply H. exact Hj.
+Qed.
+
+Lemma Forall2_rev' : forall A B (P : A -> B -> Prop) a b, Forall2 P a b -> Forall2 P (rev a) (rev b).
+Proof.
+  intros A B P a b H. induction H; simpl; [constructor|].
+  apply Forall2_app; [assumption | constructor; [assumption | constructor]].
+Qed.
+
+Lemma nth_triples_fst : forall steps j A v,
+  nth_error (map fst steps) j = Some v -> nth_error (A :: flat_map triple steps) (3 * j + 2) = Some v.
+Proof. intros. rewrite nth_triples. rewrite <- nth_error_map. assumption. Qed.
+
+Lemma unpack_in_order_l : forall left mid right star,
+  (star = false -> mid = []) ->
+  run_outs (seq_unpack (length (left ++ mid ++ right)) (length left) (length right) star)
+    (outs_unpack_left (length left)
+     ++ (if star then [out_unpack_star (length left) (length right)] else [])
+     ++ outs_unpack_right (length left) (length right))
+    [VArr (map Some (left ++ mid ++ right))]
+  = Ok (left ++ (if star then [VArr (map Some mid)] else []) ++ right).
+Proof.
+  intros left mid right star Hstar.
+  set (A0 := VArr (map Some (left ++ mid ++ right))).
+  set (S1 := steps_left left (mid ++ right)).
+  set (S2 := steps_right mid (rev right)).
+  set (F := A0 :: flat_map triple (S1 ++ S2)).
+  assert (HA1 : last_arr A0 S1 = VArr (map Some (mid ++ right))).
+  { apply last_arr_left. destruct left; [right; reflexivity | left; discriminate]. }
+  assert (HA2 : last_arr A0 (S1 ++ S2) = VArr (map Some mid)).
+  { rewrite last_arr_app, HA1. apply last_arr_right.
+    destruct right as [|x right]; [right; rewrite app_nil_r; reflexivity | left].
+    simpl. destruct (rev right); discriminate. }
+  (* the run *)
+  assert (Hrun : run (seq_unpack (length (left ++ mid ++ right)) (length left) (length right) star) [A0] = Ok F).
+  { unfold seq_unpack. rewrite run_app.
+    (* phase 1 *)
+    pose proof (pops_run S1 true (length (left ++ mid ++ right)) 0 [] A0 eq_refl (chain_left left (mid ++ right))) as P1.
+    unfold S1 in P1 at 1. rewrite steps_left_length in P1. fold S1 in P1. simpl app in P1.
+    rewrite P1. cbn [obind].
+    rewrite run_app.
+    (* phase 2 *)
+    destruct (frame_split S1 A0) as [fr1 [E1 L1]]. simpl app in E1. rewrite E1, HA1.
+    assert (P2 : run (seq_pops false (length (left ++ mid ++ right) - length left) (length right) (3 * length left))
+                   (fr1 ++ [VArr (map Some (mid ++ right))])
+                 = Ok ((fr1 ++ [VArr (map Some (mid ++ right))]) ++ flat_map triple S2)).
+    { replace (length right) with (length S2)
+        by (unfold S2; rewrite steps_right_length, rev_length; reflexivity).
+      replace (length (left ++ mid ++ right) - length left)%nat with (length (mid ++ rev (rev right)))
+        by (rewrite rev_involutive, !app_length; lia).
+      rewrite <- (rev_involutive right) at 2 3.
+      apply pops_run.
+      - unfold S1 in L1. rewrite steps_left_length in L1. exact L1.
+      - apply chain_right. }
+    rewrite P2.
+    - cbn [obind]. rewrite <- HA1, <- E1.
+      assert (EF : (A0 :: flat_map triple S1) ++ flat_map triple S2 = F).
+      { unfold F. rewrite flat_map_app. reflexivity. }
+      rewrite EF.
+      destruct star.
+      + reflexivity.
+      + cbn [run]. rewrite (exec_op _ _ _ [VArr []] []).
+        * cbn [obind]. rewrite app_nil_r. reflexivity.
+        * cbn [lookups]. replace (3 * (length left + length right))%nat with (3 * length (S1 ++ S2))%nat.
+          -- unfold F. rewrite nth_last_arr, HA2, (Hstar eq_refl). reflexivity.
+          -- unfold S1, S2. rewrite app_length, steps_left_length, steps_right_length, rev_length. reflexivity.
+        * reflexivity.
+  }
+  unfold run_outs. fold A0. rewrite Hrun. cbn [obind].
+  assert (Efst : map fst (S1 ++ S2) = left ++ rev right).
+  { unfold S1, S2. rewrite map_app, steps_left_fst, steps_right_fst. reflexivity. }
+  apply lookups_app; [|apply lookups_app].
+  - unfold outs_unpack_left. apply lookups_map. apply Forall2_seq_nth.
+    intros j v Hj. unfold F. apply nth_triples_fst. rewrite Efst. simpl.
+    rewrite nth_error_app1 by (apply nth_error_Some; congruence). exact Hj.
+  - destruct star; [|reflexivity]. unfold out_unpack_star. cbn [lookups].
+    replace (3 * (length left + length right))%nat with (3 * length (S1 ++ S2))%nat.
+    + unfold F. rewrite nth_last_arr, HA2. reflexivity.
+    + unfold S1, S2. rewrite app_length, steps_left_length, steps_right_length, rev_length. reflexivity.
+  - unfold outs_unpack_right. rewrite <- map_rev. apply lookups_map.
+    rewrite <- (rev_involutive right) at 2. apply Forall2_rev'.
+    rewrite <- (rev_length right). apply Forall2_seq_nth.
+    intros j v Hj. simpl. unfold F. apply nth_triples_fst. rewrite Efst.
+    rewrite nth_error_app2 by lia. replace (length left + j - length left)%nat with j by lia. exact Hj.
+Qed.
